@@ -25,6 +25,18 @@ def cases(rng, tier):
         if b == 0 and a > 0:
             b = a + rng.randint(0, 2)
         yield "paranoia %s %d %d %d" % (w, acct, a, b), "paranoia"
+    yield from _seq_cases(rng, tier)
+
+
+def _seq_cases(rng, tier):
+    """two filtered reports in one process; the FIRST is inspected only after the second has been produced"""
+    n = 3 if tier == "quick" else 60
+    ws = wspecs(rng, 2 * n)
+    for i in range(n):
+        a1, b1 = rng.choice([(0, 1), (0, 3), (2, 4)])
+        a2, b2 = rng.choice([(0, 1), (0, 2), (5, 9)])
+        yield "paranoia_seq %s %d %d %d %s %d %d %d" % (ws[2 * i], rng.choice([0, 1]), a1, b1,
+                                                        ws[2 * i + 1], rng.choice([0, 2]), a2, b2), "paranoia-held-result"
 
 
 def nontrivial(line, out):
@@ -58,6 +70,18 @@ def is_private_encoding(s):
 
 def oracle(line, out):
     tok = line.split(" ")
+    if tok[0] == "paranoia_seq":
+        v = ok_val(out)
+        if v is None:
+            return "filtered reports failed"
+        r1, r2, same = v.split(" ")
+        m = oracle("paranoia " + " ".join(tok[1:5]), "ok " + r1)
+        if m:
+            return "first filtered report, inspected after a second one was produced: " + m
+        m = oracle("paranoia " + " ".join(tok[5:9]), "ok " + r2)
+        if m:
+            return "second filtered report: " + m
+        return None
     if tok[0] != "paranoia":
         return None
     v = ok_val(out)
